@@ -152,6 +152,11 @@ pub fn field_mutations(spec: &XzSpec, file: &XzFile) -> Vec<(Mut, bool)> {
     for keep in 0..spec.blocks.len() {
         v.push((Mut::IndexTruncate { keep }, true));
     }
+    for i in 0..spec.blocks.len() {
+        for j in i + 1..spec.blocks.len() {
+            v.push((Mut::IndexSwap { i, j }, true));
+        }
+    }
     v.push((Mut::IndexExtra { unpadded: 12, unpacked: 0 }, true));
     if let Some(last) = spec.blocks.last() {
         let bl = file.layout.blocks.last().unwrap();
@@ -214,6 +219,7 @@ pub fn mut_name(m: &Mut) -> &'static str {
         Mut::IndexPad { .. } => "index padding",
         Mut::IndexTruncate { .. } => "index lists fewer records than blocks",
         Mut::IndexExtra { .. } => "index lists more records than blocks",
+        Mut::IndexSwap { .. } => "index records exchanged",
         Mut::IndexCrc(_) => "index crc32",
         Mut::FooterCrc(_) => "footer crc32",
         Mut::BackwardSize(_) => "backward size",
